@@ -167,6 +167,11 @@ func load(repo string, withSSA bool) (*Ctx, error) {
 	if len(errs) > 0 {
 		return nil, fmt.Errorf("type/load errors: %s", strings.Join(errs, "; "))
 	}
+	if os.Getenv("EMCHECK_NO_NORMALIZE") == "" {
+		for _, p := range pkgs {
+			normalizePackage(p)
+		}
+	}
 	for _, p := range pkgs {
 		AllFuncDecls(p, func(fd *ast.FuncDecl) {
 			if fd.Recv != nil || fd.Body == nil {
